@@ -115,9 +115,35 @@ Definition tasks_delitem (tid : K) : M :=
 
 (* for task in self.tasks.values(): body task    (the body must not change self.tasks' key set;
    register of an existing id rebinds the same key) *)
+Fixpoint tasks_loop (l : list (K * taskT)) (body : taskT -> M) : M :=
+  match l with
+  | [] => ret
+  | p :: r => seq (body (snd p)) (tasks_loop r body)
+  end.
+
 Definition for_tasks (body : taskT -> M) : M :=
-  fun m => (fix go (l : list (K * taskT)) : M :=
-              match l with [] => ret | p :: r => seq (body (snd p)) (go r) end) (m_tasks m) m.
+  fun m => tasks_loop (m_tasks m) body m.
+
+(* for dct in self.rdeps, self.rtasks, self.deptasks, self.tartasks: body dct *)
+Fixpoint for_indices (l : list ix) (body : ix -> M) : M :=
+  match l with
+  | [] => ret
+  | i :: r => seq (body i) (for_indices r body)
+  end.
+
+(* for kk, ss in list(dct.items()): body kk ss     — list(...) is a snapshot taken before the loop *)
+Fixpoint items_loop (l : @index K) (body : K -> @refcount K -> M) : M :=
+  match l with
+  | [] => ret
+  | p :: r => seq (body (fst p) (snd p)) (items_loop r body)
+  end.
+
+Definition for_items (i : ix) (body : K -> @refcount K -> M) : M :=
+  fun m => items_loop (ix_get i m) body m.
+
+(* if len(ss) == 0: body *)
+Definition if_empty (ss : @refcount K) (body : M) : M :=
+  if Nat.eqb (length ss) 0 then body else ret.
 
 (* ---- find_taskids ------------------------------------------------------------------------------ *)
 (* start_tasks = set(); for dep in start_deps: start_tasks.update(self.deptasks[dep]);
